@@ -140,6 +140,19 @@ def check_spec(ctx, spec):
         ctx.count("rejected_at_construction")
         return
     repeated = any(keyrows[i] == keyrows[i - 1] for i in range(1, n))
+    if not contiguous and any(v == "nan" for k in keyrows for v in k):
+        # whether a NaN key that comes back is "an equal key" the statement leaves open (NaN is not equal to
+        # itself): if every run of NaN counts as a group of its own and the order is contiguous then, the
+        # document may be refused or rendered
+        runs = [tuple(f"nan#{i}" if v == "nan" else v for v in k) for i, k in enumerate(keyrows)]
+        for i in range(1, n):
+            runs[i] = tuple(runs[i - 1][l] if keyrows[i][l] == "nan" and keyrows[i - 1][:l + 1] == keyrows[i][:l + 1]
+                            else runs[i][l] for l in range(len(keyrows[i])))
+        if E.prefix_contiguous(runs):
+            ctx.count("recurring_nan_keys_accepted_either_way")
+            if o.stage == "encode" and isinstance(o.exc, ValueError):
+                return
+            contiguous = True
     if not contiguous:
         ctx.count("noncontiguous_cases")
         ctx.case(case, n >= 2)
@@ -264,9 +277,12 @@ def random_spec(rng):
     n = rng.choice([rng.randint(1, 12), rng.randint(8, 60)])
     intkeys = rng.random() < 0.4
     # numeric / boolean keys include the falsy values 0, 0.0 and False
-    kind = rng.choice(["int", "float", "bool"]) if intkeys else "str"
+    kind = rng.choice(["int", "float", "bool", "floatx"]) if intkeys else "str"
+    # ("floatx": Float keys with NaN - which is not equal to itself -, the infinities and -0.0, next to nulls; kept
+    # as the text Python prints for them)
     pool = {"int": [[0, 1, 2, 3, None], [0, 10, 20, None]], "float": [[0.0, 1.5, 2.0, None], [0.0, 2.5, None]],
             "bool": [[False, True, None], [False, True, None]],
+            "floatx": [["nan", "-0.0", "1.5", None, None], ["nan", "inf", None]],
             "str": [["a", "b", "c", None], ["x", "y", None]]}[kind]
     # contiguous hierarchical keys, possibly with nulls as group values
     keys = G.gen_group_keys(rng, n, levels, maxruns=rng.choice([2, 3, 5]), reuse_inner=True)
@@ -277,7 +293,8 @@ def random_spec(rng):
             parent = k[:lvl]
             used = ren.setdefault(parent, {})
             if k[lvl] not in used:
-                extra = {"int": [7, 8, 9], "float": [7.25, 8.5], "bool": [], "str": ["d", "e", "f"]}[kind]
+                extra = {"int": [7, 8, 9], "float": [7.25, 8.5], "bool": [], "str": ["d", "e", "f"],
+                         "floatx": ["-inf", "2.5", "1e-07"]}[kind]
                 choices = [v for v in pool[min(lvl, 1)] + extra if not any(v is u or (v == u and type(v) is type(u))
                                                                          for u in used.values())]
                 if choices:
@@ -286,7 +303,7 @@ def random_spec(rng):
                     used[k[lvl]] = rng.choice([False, True])      # may make the keys non-contiguous: fine
                 else:
                     used[k[lvl]] = (len(used) + 100) if kind == "int" else (len(used) + 100.5) if kind == "float" \
-                        else f"z{len(used)}"
+                        else f"{len(used) + 100}.5" if kind == "floatx" else f"z{len(used)}"
             cols[lvl].append(used[k[lvl]])
     if rng.random() < 0.25 and n >= 3:
         # scramble -> usually non-contiguous
@@ -318,7 +335,12 @@ def random_spec(rng):
             spec["footnote"] = {"text": "FN0"}
         if rng.random() < 0.3:
             spec["title"] = {"text": "TT0"}
-    return make_spec(rng, cols, rng.choice([2, 3, 4, 5, 7, 10, 40]), extra)
+    spec = make_spec(rng, cols, rng.choice([2, 3, 4, 5, 7, 10, 40]), extra)
+    if kind == "floatx":
+        for c in spec["df"]["cols"]:
+            if c["name"] in [f"N{j}" for j in range(levels)] and c["dtype"] != "null":
+                c["dtype"] = "floatx"
+    return spec
 
 
 def run_shard(desc, ctx):
